@@ -113,6 +113,17 @@ def datatype_contracts(tier, seed):
                     alias = a
                     c = aug(a, b)
                     check(f'{tag}:{nm}:other_name_unchanged', np.array_equal(alias, a0) and type(c) is cls)
+                # ... also when the two operands have DIFFERENT dtypes (precision / real vs complex): the other name keeps its values and its dtype
+                for odt in (np.dtype('float32'), np.dtype('float64'), np.dtype('complex128'), np.dtype('int64')):
+                    if odt == dt:
+                        continue
+                    other = rand(cls, shape, odt if odt.kind != 'i' else np.dtype('float64')).astype(odt) if odt.kind != 'i' else (10 * rand(cls, shape, np.dtype('float64'))).astype(odt)
+                    for lhs, rhs in ((a, other), (other, a)):
+                        l0, ldt = np.array(lhs), lhs.dtype
+                        alias = lhs
+                        x = lhs
+                        x += rhs
+                        check(f'{tag}:iadd_mixed_dtype[{ldt}+={rhs.dtype}]:other_name_unchanged', np.array_equal(alias, l0) and alias.dtype == ldt and np.allclose(np.asarray(x), l0 + np.asarray(rhs)))
                 # out= must not write into a mesh that another name refers to
                 tgt = rand(cls, shape, dt)
                 t0 = np.array(tgt)
@@ -176,6 +187,12 @@ def datatype_contracts(tier, seed):
         c = particles(p)
         c.pos[...] = 0
         check(f'particles/{n}:copy:independent', np.array_equal(p.pos, p0[0]) and not np.shares_memory(c.vel, p.vel))
+        # charges and masses belong to the copy as well
+        qm0 = (np.array(p.q), np.array(p.m))
+        check(f'particles/{n}:copy:charges_and_masses_independent', not np.shares_memory(c.q, p.q) and not np.shares_memory(c.m, p.m) and np.array_equal(c.q, qm0[0]) and np.array_equal(c.m, qm0[1]))
+        c.q[...] = -7.0
+        c.m[...] = 11.0
+        check(f'particles/{n}:copy:writing_charges_of_the_copy_leaves_the_original', np.array_equal(p.q, qm0[0]) and np.array_equal(p.m, qm0[1]))
         check(f'particles/{n}:abs:nonnegative', abs(p) >= 0)
         f, g = fields(init), fields(init)
         f.elec[...] = rng.randn(*f.elec.shape)
